@@ -51,12 +51,37 @@ def run_one(job):
         shutil.rmtree(d, ignore_errors=True)
 
 
+def refactors(args):
+    """refactors/*.patch are property-PRESERVING changes (restructured code, renamed variables, a different but equally valid
+    order); the checks named in the accompanying .txt must pass on them: no VIOLATION, exit status 0 (drift lines allowed)."""
+    jobs = []
+    for p in sorted(glob.glob(os.path.join(VERIF, "refactors", "*.patch"))):
+        txt = open(p[:-6] + ".txt").read()
+        checks = txt.splitlines()[0].split(":", 1)[1].split()
+        for pid in checks:
+            if args.only and pid != args.only:
+                continue
+            jobs.append((os.path.basename(p), pid, [p]))
+    print("selftest: %d (refactor, check) pairs" % len(jobs))
+    bad = 0
+    with concurrent.futures.ThreadPoolExecutor(max_workers=args.jobs) as ex:
+        for name, pid, verdict, info, dt in ex.map(run_one, jobs):
+            quiet = verdict == "MISSED"          # the check passed: what is wanted here
+            print("%-48s %-4s %-18s %5.0fs  %s" % (name, pid, "QUIET" if quiet else "ALARM (" + verdict + ")", dt, "" if quiet else info[:160]))
+            sys.stdout.flush()
+            if not quiet:
+                bad += 1
+    print("selftest: %d of %d pairs quiet" % (len(jobs) - bad, len(jobs)))
+    return 0 if bad == 0 else 1
+
+
 def main(argv):
     ap = argparse.ArgumentParser()
     ap.add_argument("--only", default=None)
     ap.add_argument("--jobs", type=int, default=3)
     ap.add_argument("--seeded", action="store_true")
     ap.add_argument("--no-mutants", action="store_true")
+    ap.add_argument("--refactors", action="store_true", help="property-preserving changes (refactors/*.patch): every listed check must stay quiet")
     args = ap.parse_args(argv)
     jobs = []
     if not args.no_mutants:
@@ -73,6 +98,8 @@ def main(argv):
             if args.only and pid != args.only:
                 continue
             jobs.append(("seeded/" + os.path.basename(os.path.dirname(m)), pid, [os.path.join(os.path.dirname(m), "patch.diff")]))
+    if args.refactors:
+        return refactors(args)
     print("selftest: %d changes" % len(jobs))
     bad = 0
     with concurrent.futures.ThreadPoolExecutor(max_workers=args.jobs) as ex:
